@@ -1261,3 +1261,14 @@ impl InstrFormat for TimelineFormat08 {
         Ok(())
     }
 }
+
+#[cfg(truth_verif)]
+pub fn verif_language_hooks(game: Game, language: LanguageKey) -> Option<Box<dyn LanguageHooks>> {
+    if game >= Game::Th10 { return None; }
+    let format = OldeFileFormat::new(game);
+    match language {
+        LanguageKey::Ecl => Some(format.ecl_hooks),
+        LanguageKey::Timeline => Some(format.timeline_hooks),
+        _ => None,
+    }
+}
